@@ -91,17 +91,20 @@ type Op struct {
 
 // Thread is one controlled goroutine.
 type Thread struct {
-	watch   bool
-	worked  []string
-	ID      int
-	Name    string
-	c       *Controller
-	baton   chan struct{}
-	pending *Op
-	done    bool
-	started bool
-	nops    int
-	exited  chan struct{}
+	lastKind string
+	lastObj  int
+	repeat   int
+	watch    bool
+	worked   []string
+	ID       int
+	Name     string
+	c        *Controller
+	baton    chan struct{}
+	pending  *Op
+	done     bool
+	started  bool
+	nops     int
+	exited   chan struct{}
 }
 
 // Aborting reports whether the execution is being torn down; shim operations then do nothing.
@@ -155,14 +158,15 @@ type Controller struct {
 	self      *Thread
 	trace     bool
 
-	objIDs    map[any]int
-	mutexes   map[any]*MutexState
-	onces     map[any]*OnceState
-	wgs       map[any]*WGState
-	chans     map[uintptr]*ChanState
-	keepAlive []any
-	captured  map[string][]any
-	noBranch  bool
+	objIDs     map[any]int
+	mutexes    map[any]*MutexState
+	onces      map[any]*OnceState
+	wgs        map[any]*WGState
+	chans      map[uintptr]*ChanState
+	keepAlive  []any
+	captured   map[string][]any
+	noBranch   bool
+	lastThread *Thread
 	// StateHook, when set, contributes harness-observable state to the state signature.
 	env map[string]any
 }
@@ -352,6 +356,19 @@ func (t *Thread) Point(op Op) {
 	c := t.c
 	if c.aborting.Load() {
 		return
+	}
+	// spin detection: a thread repeating the same operation on the same object with no step of any
+	// other thread in between (a busy-wait loop) is blocked until some other thread has taken a step
+	if c.lastThread == t && t.lastKind == op.Kind && t.lastObj == op.Obj && op.Enabled == nil {
+		t.repeat++
+	} else {
+		t.repeat = 0
+	}
+	t.lastKind, t.lastObj = op.Kind, op.Obj
+	c.lastThread = t
+	if t.repeat >= 3 {
+		mark := c.steps + 1
+		op.Enabled = func() bool { return c.steps > mark }
 	}
 	t.pending = &op
 	t.nops++
